@@ -64,6 +64,13 @@ def fixedpoint_cases():
                         "deg": [0, 180][(si + ui) % 2], "n": len(ts), "up": up, "identical": False, "ts": ts,
                         "sigma": 0.5, "max_shift": 32, "sub": 2100 + k})
             k += 1
+    # a shift larger than half the SHORTER canvas axis along the longer one (column shift on a landscape canvas, row shift on a
+    # portrait one): wrap-around of the measured shift must use the axis' own length
+    for (H, W, ts) in ((4, 8, [[0, 0], [0, 4]]), (8, 4, [[0, 0], [4, 0]]), (4, 8, [[0, 0], [0, -3]]), (8, 4, [[0, 0], [-3, 1]])):
+        for up in (1, 8):
+            out.append({"stream": "align", "block": "fixedpoint", "H": H, "W": W, "nk": 1 + k % 4, "pad": 0.25, "deg": 0, "n": 2, "up": up,
+                        "identical": False, "ts": ts, "sigma": 0.5, "max_shift": 32, "sub": 2200 + k})
+            k += 1
     return out
 
 
